@@ -325,6 +325,8 @@ def run(ctx):
     r3(ctx)
     from .c12 import used_vars_unmodified
     used_vars_unmodified(ctx, "R2")
+    from . import rulecoll
+    rulecoll.rc4(ctx, "R2")     # moving a rule document to another rule file does not change which documents are loaded
     ctx.rule("R4", "transform entries that the dependency sort leaves unordered (hash order) cannot observe each other: what rewriters inherit is fixed before the first entry is applied")
     r4(ctx)
 
